@@ -95,7 +95,7 @@ class Env:
                 init = self.lets[nm]
                 if isinstance(init, Lin):
                     return init
-                if init["k"] in ("Binary", "Lit", "If", "Block", "Path", "Cast") or (init["k"] == "Call" and "size_of" in (init.get("callee") or "")):
+                if init["k"] in ("Binary", "Lit", "If", "Block", "Path", "Cast", "Call"):
                     return self.lin(init, depth + 1)
                 if init["k"] == "MethodCall" and init["name"] in ("len",):
                     return Lin(0, {cond_key(init): 1})
@@ -321,8 +321,11 @@ def run(ctx, R):
         uses_size = any(s.endswith(size_fn) for s in src)
         L = env2.lin(arg)
         writer_used = any(x["k"] in ("MethodCall", "Call") and (x.get("name") == writer_name or (x.get("resolved") or "").endswith(writer_name)) for x in walk(hh["body"]))
-        R.ob("C33:pairing:%s" % method, uses_size and writer_used and L.c == extra_cells,
-             "%s reserves %s (from %s) and writes with %s: the reservation must come from %s plus %d cell(s)" % (method, L, sorted(src), writer_name, size_fn, extra_cells), F.where(fn))
+        direct = len(L.t) == 1 and list(L.t.values()) == [1] and size_fn in list(L.t.keys())[0]
+        R.ob("C33:pairing:%s" % method, uses_size and writer_used and L.c == extra_cells and direct,
+             "%s reserves %s (from %s) and writes with %s: the reservation must be exactly %s(src) plus %d cell(s). (The size function counts BYTES and "
+             "reserve() takes CELLS: the 8x slack is what covers the link cells compute_pstr_size does not count for text after an embedded NUL; scaling "
+             "the reservation down makes push_pstr write past the reserved section.)" % (method, L, sorted(src), writer_name, size_fn, extra_cells), F.where(fn))
 
     pairing("allocate_pstr", "compute_pstr_size", "push_pstr", 0)
     pairing("allocate_cstr", "compute_pstr_size", "push_pstr", 1)
